@@ -195,7 +195,12 @@ func runOp(in *instances, op OpSpec) (d string) {
 		}
 		txt := text(r, 1+r.intn(n), class)
 		hints := map[gozxing.EncodeHintType]interface{}{gozxing.EncodeHintType_ERROR_CORRECTION: ecLevels[r.intn(4)]}
-		switch r.intn(4) {
+		switch r.intn(5) {
+		case 3:
+			// spellings that are not registry keys: whatever the library does
+			// with them (reject, resolve an alias), it must do it the same way
+			// under any interleaving and without touching shared state
+			hints[gozxing.EncodeHintType_CHARACTER_SET] = []string{"utf-8", "WINDOWS-1252", "latin1", "shift-jis", "us-ascii", "Utf8", "iso-8859-15", "EUC_JP"}[r.intn(8)]
 		case 1:
 			hints[gozxing.EncodeHintType_CHARACTER_SET] = "UTF-8"
 		case 2:
@@ -494,7 +499,8 @@ func runOp(in *instances, op OpSpec) (d string) {
 		}
 		return digestMatrix(m1, e1) + " | " + digestMatrix(m2, e2) + " | " + rd + fmt.Sprint(e3)
 	case "eci":
-		names := []string{"UTF-8", "Shift_JIS", "ISO-8859-1", "ISO8859_7", "GB18030", "Big5", "EUC-KR", "Cp1252", "nope"}
+		names := []string{"UTF-8", "Shift_JIS", "ISO-8859-1", "ISO8859_7", "GB18030", "Big5", "EUC-KR", "Cp1252", "nope",
+			"utf-8", "WINDOWS-1252", "latin1", "shift-jis", "us-ascii", "Utf8", "iso-8859-15", "EUC_JP", "windows-1250", "KOI8-R"}
 		nm := names[r.intn(len(names))]
 		e, ok := common.GetCharacterSetECIByName(nm)
 		out := fmt.Sprint(ok)
